@@ -2,6 +2,7 @@ package verifh
 
 import (
 	"fmt"
+	"net"
 
 	"github.com/cockroachdb/errors"
 	"github.com/cockroachdb/errors/errbase"
@@ -12,6 +13,49 @@ import (
 
 // H_C09_VS: %v and %s print exactly Error() (library outermost type directly,
 // any error through Formattable), locally and decoded.
+// opArrow: some layer of e is a *net.OpError with both a source and an
+// address (known finding: its special-case printer writes "src -> addr" where
+// Error() has "src->addr"). Assert ids that compare a rendering with Error()
+// are replaced by one id for such trees, so that the finding suppresses nothing else.
+func opArrow(e error) bool {
+	if e == nil {
+		return false
+	}
+	if o, ok := e.(*net.OpError); ok && o.Source != nil && o.Addr != nil {
+		return true
+	}
+	for _, m := range errbase.UnwrapMulti(e) {
+		if opArrow(m) {
+			return true
+		}
+	}
+	return opArrow(errors.UnwrapOnce(e))
+}
+
+const opArrowID = "rendering==Error()@net.OpError(src->addr)"
+
+type c09addr string
+
+func (a c09addr) Network() string { return "tcp" }
+func (a c09addr) String() string  { return string(a) }
+
+// H_C09_OpErrorArrow: the known finding on its own, in every tier.
+func H_C09_OpErrorArrow(v *sym.V) {
+	var e error = &net.OpError{Op: "dial", Net: "tcp", Source: c09addr("s"), Addr: c09addr("a"), Err: errors.New("c")}
+	if v.Choice("wrapped", 2) == 1 {
+		e = errors.WithStack(e)
+	}
+	v.Assert(opArrowID, fmt.Sprintf("%v", errors.Formattable(e)) == e.Error())
+	// address only, or source only: no finding
+	for _, o := range []*net.OpError{
+		{Op: "dial", Net: "tcp", Addr: c09addr("a"), Err: errors.New("c")},
+		{Op: "dial", Net: "tcp", Source: c09addr("s"), Err: errors.New("c")},
+		{Op: "dial", Err: errors.New("c")},
+	} {
+		v.Assert("formattable%v@*net.OpError", fmt.Sprintf("%v", errors.Formattable(o)) == o.Error())
+	}
+}
+
 func H_C09_VS(v *sym.V) {
 	g := newG(v, sym.REG)
 	b := build(v, g, "e")
@@ -21,9 +65,13 @@ func H_C09_VS(v *sym.V) {
 	}
 	k := fmt.Sprintf("%T", e)
 	verb := []string{"%v", "%s"}[v.Choice("verb", 2)]
-	v.Assert("formattable"+verb+"@"+k, fmt.Sprintf(verb, errors.Formattable(e)) == e.Error())
+	idF, idD := "formattable"+verb+"@"+k, "direct"+verb+"@"+k
+	if opArrow(e) {
+		idF, idD = opArrowID, opArrowID
+	}
+	v.Assert(idF, fmt.Sprintf(verb, errors.Formattable(e)) == e.Error())
 	if _, isFormatter := e.(fmt.Formatter); isFormatter {
-		v.Assert("direct"+verb+"@"+k, fmt.Sprintf(verb, e) == e.Error())
+		v.Assert(idD, fmt.Sprintf(verb, e) == e.Error())
 	}
 	bad := []string{"%d", "%t", "%e"}[v.Choice("bad", 3)]
 	v.Assert("badverb@"+k, fmt.Sprintf(bad, errors.Formattable(e)) == "%!"+bad[1:]+"("+k+")")
@@ -161,11 +209,15 @@ func H_C09_PlusV(v *sym.V) {
 	v.Observe("plusv", p)
 	layers := printOrder(e, nil)
 	// head
+	idH, idL := "plusv-head", "plusv-head-firstline"
+	if opArrow(e) {
+		idH, idL = opArrowID, opArrowID
+	}
 	if !multiline {
-		v.Assert("plusv-head", sym.HasPrefix(p, e.Error()+"\n(1)"))
+		v.Assert(idH, sym.HasPrefix(p, e.Error()+"\n(1)"))
 	} else {
 		// known finding for multi-line messages: checked separately (H_C09_MultilineHead)
-		v.Assert("plusv-head-firstline", sym.HasPrefix(p, b.Text[:firstNL(b.Text)]+"\n(1)"))
+		v.Assert(idL, sym.HasPrefix(p, b.Text[:firstNL(b.Text)]+"\n(1)"))
 	}
 	// entries at column 0: (1), then "Wraps: (k)" for k = 2..n, no more
 	v.Assert("plusv-entries", countSub(p, "\n(1)") == 1)
